@@ -125,7 +125,7 @@ def jobs(tier):
     # the C++ gateway's receive step and frame-header parse (shared with C03): the read window stays inside the buffer for every size/cursor/budget
     from props import c08
     # MiniMessage.c: the bounds-checked cursor read every step of MMUnflattenMessage goes through, and its overflow test
-    mini = [j for j in c08.mini_leaf_jobs() if j.name in ('mm_ReadData', 'mm_WillUnsignedAddOverflow', 'mm_AllocMMessageField')]
+    mini = [j for j in c08.mini_leaf_jobs() if j.name in ('mm_ReadData', 'mm_WillUnsignedAddOverflow', 'mm_AllocMMessageField', 'mm_ImportMMessageField')]
     return micro_jobs(tier) + mini + codec.codec_jobs(tier, want=('reader',)) + [j for j in c03.mgw_jobs() if j.name in ('mgw_ReceiveMoreData', 'mgw_GetBodySize')]
 
 
@@ -138,7 +138,7 @@ META = dict(
                  'libc strlen/strcmp/strncmp behave as their contract stubs say (read at most n / up to the first NUL)',
                  'single thread'],
     assumed_contracts=['strlen', 'strcmp', 'strncmp', 'GetNumItemsInField (contract written, enforcement exceeds the sandbox; assumed where callers replace it)'],
-    not_lowered=['MessageIOGateway::DoInputImplementation itself (only its ReceiveMoreData step and GetBodySize are lowered; the wrap-around guard repaired in 9935e9c is not under an obligation)', 'MicroMessage: GetNumItemsInField, UMIteratorAdvance, UMGetString, UMFindData, UMFindMessage are NOT enforced (solver limits)', 'MiniMessage.c: only ReadData (success exactly when the block lies inside the buffer, for block sizes <= 16 and buffers below 4 GiB - 16), WillUnsignedAddOverflow and AllocMMessageField (bounded) are under contract; MMUnflattenMessage itself (recursion, allocation, linked lists) is not, so that ReadData\'s precondition (cursor <= buffer size) holds at its call sites is read off the code, not proved', 'MiniGateway.c, Message::Unflatten and the C++ gateways\' DoInput loops are not covered'],
+    not_lowered=['MessageIOGateway::DoInputImplementation itself (only its ReceiveMoreData step and GetBodySize are lowered; the wrap-around guard repaired in 9935e9c is not under an obligation)', 'MicroMessage: GetNumItemsInField, UMIteratorAdvance, UMGetString, UMFindData, UMFindMessage are NOT enforced (solver limits)', 'MiniMessage.c: only ReadData (success exactly when the block lies inside the buffer, for block sizes <= 16 and buffers below 4 GiB - 16), WillUnsignedAddOverflow, AllocMMessageField and ImportMMessageField (both bounded) are under contract; MMUnflattenMessage itself (recursion, allocation, linked lists) is not, so that ReadData\'s precondition (cursor <= buffer size) holds at its call sites is read off the code, not proved', 'MiniGateway.c, Message::Unflatten and the C++ gateways\' DoInput loops are not covered'],
     explanation='Every read-side function of MicroMessage.c is enforced against a contract whose precondition is "any buffer of any size with arbitrary contents"; '
                 'CBMC generates a dereference obligation for every memory access, dfcc generates frame/postcondition/loop-invariant/variant obligations.',
 )
